@@ -292,17 +292,25 @@ func (s *SecureChannel) dispatcher() {
 				debug.Printf("uasc %d/%d: recv %T", s.c.ID(), msg.RequestID, msg.body)
 			}
 
+			// The receive gate has to be taken before the handler is popped: once
+			// the handler is gone the opener may time out and run its deferred
+			// rcvLocker.unlock() at any moment; locking after that would leave the
+			// gate locked forever.
+			_, isOPN := msg.Response().(*ua.OpenSecureChannelResponse)
+			if isOPN {
+				s.rcvLocker.lock()
+			}
+
 			ch, ok := s.popHandler(msg.RequestID)
 			verifPoint("disp.pop", s, "req", msg.RequestID, "ok", ok, "err", msg.Err, "body", msg.body)
 
 			if !ok {
 				debug.Printf("uasc %d/%d: no handler for %T", s.c.ID(), msg.RequestID, msg.body)
+				if isOPN {
+					// nobody is waiting for this response (the opener has given up)
+					s.rcvLocker.unlock()
+				}
 				continue
-			}
-
-			// HACK
-			if _, ok := msg.Response().(*ua.OpenSecureChannelResponse); ok {
-				s.rcvLocker.lock()
 			}
 
 			debug.Printf("uasc %d/%d: sending %T to handler", s.c.ID(), msg.RequestID, msg.body)
